@@ -105,6 +105,12 @@ func (t *TempoService) OutputQuery(binIds bool, rows *sql2.Rows) (chan *model.Sp
 	res := make(chan *model.SpanResponse)
 	go func() {
 		defer close(res)
+		defer rows.Close()
+		defer func() {
+			if err := recover(); err != nil {
+				fmt.Println("panic while decoding a stored span:", err)
+			}
+		}()
 		parser := fastjson.Parser{}
 		for rows.Next() {
 			var zipkin zipkinPayload
@@ -118,6 +124,9 @@ func (t *TempoService) OutputQuery(binIds bool, rows *sql2.Rows) (chan *model.Sp
 				span        *v1.Span
 				serviceName string
 			)
+			if len(zipkin.traceId) < 16 || len(zipkin.spanId) < 8 || zipkin.payload == "" {
+				continue
+			}
 			switch zipkin.payloadType {
 			case 1:
 				span, serviceName, err = parseZipkinJSON(&zipkin, &parser, binIds)
